@@ -113,8 +113,16 @@ func sitePoint(site string) {
 
 func acquire(k unsafe.Pointer, try func() bool, site string) {
 	NLock.Add(1)
+	woken := false
 	for {
-		sitePoint(site)
+		if s := cur.Load(); woken && s != nil {
+			// a scheduler task woken from a lock wait parks even at an unfocused site: which of
+			// several woken waiters gets the lock is then the scheduler's decision, not the runtime's
+			s.yieldKnown(site)
+		} else {
+			sitePoint(site)
+		}
+		woken = true
 		regMu.Lock()
 		li := locks[k]
 		if try() {
@@ -370,6 +378,18 @@ func (s *Sched) yield(site string) {
 	s.park(t, site)
 }
 
+// yieldKnown parks the calling goroutine if it already is a scheduler task (focus is ignored).
+func (s *Sched) yieldKnown(site string) {
+	if cur.Load() != s || goid() == s.mainG {
+		return
+	}
+	if t := s.taskOf(false); t != nil {
+		s.park(t, site)
+	} else if s.focused(site) {
+		s.park(s.taskOf(true), site)
+	}
+}
+
 func (s *Sched) blockOn(site string, li *lockInfo) {
 	if t := s.taskOf(false); t != nil {
 		s.mu.Lock()
@@ -533,4 +553,13 @@ func (s *Sched) Choices() []int {
 		out[i] = st.Task
 	}
 	return out
+}
+
+// StopIf stops the scheduler when the run ended normally. After a stuck or step-bounded run the
+// parked goroutines are deliberately left parked (a released task could spin forever outside the
+// scheduler and keep the bubble from ever going idle); they leak, blocked, with the bubble.
+func (s *Sched) StopIf(done bool) {
+	if done {
+		s.Stop()
+	}
 }
